@@ -3,7 +3,7 @@
 use super::Backend;
 use tower_lsp_server::jsonrpc::Result;
 use tower_lsp_server::ls_types::*;
-use tracing::{info, warn};
+use tracing::info;
 
 impl Backend {
     /// Handle code_action request
@@ -61,95 +61,54 @@ impl Backend {
                         {
                             info!("Found matching fixture: {}", fixture.name);
                             // Create a code action to add this fixture as a parameter
-                            let function_line = Self::internal_line_to_lsp(fixture.function_line);
+                            // Locate the end of the parameter list with the same bracket-matching
+                            // search the completion provider uses (handles return annotations,
+                            // multi-line signatures and trailing commas).
+                            if let Some(insertion) = self
+                                .fixture_db
+                                .get_function_param_insertion_info(&file_path, fixture.function_line)
+                            {
+                                let text_to_insert = if insertion.needs_comma {
+                                    format!(", {}", fixture.name)
+                                } else {
+                                    fixture.name.clone()
+                                };
 
-                            // Get the file content from cache to determine where to insert the parameter
-                            if let Some(content) = self.fixture_db.get_file_content(&file_path) {
-                                let lines: Vec<&str> = content.lines().collect();
-                                // Use get() instead of direct indexing for safety
-                                if let Some(func_line_content) = lines.get(function_line as usize) {
-                                    // Find the closing parenthesis of the function signature
-                                    // This is a simplified approach - works for single-line signatures
-                                    if let Some(paren_pos) = func_line_content.find("):") {
-                                        let insert_pos = if func_line_content[..paren_pos]
-                                            .contains('(')
-                                        {
-                                            // Check if there are already parameters
-                                            // Use find() result safely without unwrap
-                                            let param_start = match func_line_content.find('(') {
-                                                Some(pos) => pos + 1,
-                                                None => {
-                                                    warn!("Invalid function signature: missing opening parenthesis at {:?}:{}", file_path, function_line);
-                                                    continue;
-                                                }
-                                            };
-                                            let params_section =
-                                                &func_line_content[param_start..paren_pos];
+                                let edit = WorkspaceEdit {
+                                    changes: Some(
+                                        vec![(
+                                            uri.clone(),
+                                            vec![TextEdit {
+                                                range: Self::create_point_range(
+                                                    Self::internal_line_to_lsp(insertion.line),
+                                                    insertion.char_pos as u32,
+                                                ),
+                                                new_text: text_to_insert,
+                                            }],
+                                        )]
+                                        .into_iter()
+                                        .collect(),
+                                    ),
+                                    document_changes: None,
+                                    change_annotations: None,
+                                };
 
-                                            if params_section.trim().is_empty() {
-                                                // No parameters yet
-                                                (function_line, (param_start as u32))
-                                            } else {
-                                                // Already has parameters, add after them
-                                                (function_line, (paren_pos as u32))
-                                            }
-                                        } else {
-                                            continue;
-                                        };
+                                let action = CodeAction {
+                                    title: format!("Add '{}' fixture parameter", fixture.name),
+                                    kind: Some(CodeActionKind::QUICKFIX),
+                                    diagnostics: Some(vec![diagnostic.clone()]),
+                                    edit: Some(edit),
+                                    command: None,
+                                    is_preferred: Some(true),
+                                    disabled: None,
+                                    data: None,
+                                };
 
-                                        let has_params = !func_line_content[..paren_pos]
-                                            .split('(')
-                                            .next_back()
-                                            .unwrap_or("")
-                                            .trim()
-                                            .is_empty();
-
-                                        let text_to_insert = if has_params {
-                                            format!(", {}", fixture.name)
-                                        } else {
-                                            fixture.name.clone()
-                                        };
-
-                                        let edit = WorkspaceEdit {
-                                            changes: Some(
-                                                vec![(
-                                                    uri.clone(),
-                                                    vec![TextEdit {
-                                                        range: Self::create_point_range(
-                                                            insert_pos.0,
-                                                            insert_pos.1,
-                                                        ),
-                                                        new_text: text_to_insert,
-                                                    }],
-                                                )]
-                                                .into_iter()
-                                                .collect(),
-                                            ),
-                                            document_changes: None,
-                                            change_annotations: None,
-                                        };
-
-                                        let action = CodeAction {
-                                            title: format!(
-                                                "Add '{}' fixture parameter",
-                                                fixture.name
-                                            ),
-                                            kind: Some(CodeActionKind::QUICKFIX),
-                                            diagnostics: Some(vec![diagnostic.clone()]),
-                                            edit: Some(edit),
-                                            command: None,
-                                            is_preferred: Some(true),
-                                            disabled: None,
-                                            data: None,
-                                        };
-
-                                        info!(
-                                            "Created code action: Add '{}' fixture parameter",
-                                            fixture.name
-                                        );
-                                        actions.push(CodeActionOrCommand::CodeAction(action));
-                                    }
-                                }
+                                info!(
+                                    "Created code action: Add '{}' fixture parameter",
+                                    fixture.name
+                                );
+                                actions.push(CodeActionOrCommand::CodeAction(action));
                             }
                         }
                     }
